@@ -84,14 +84,13 @@ Section PageRank.
     forall i, (i < n)%nat -> x i == upd x (dangling_rank x) i.
 
   (** one asynchronous iteration, as equations: every node [i] is rewritten once, from its
-      own old value, the dangling rank of the old vector, and for every other node [j]
-      either the old value ([st i j = true]) or the value written in this iteration.
-      [st] constantly true is a Jacobi step, [st i j = (i <? j)] the Gauss-Seidel sweep;
-      any thread schedule with racy reads yields some [st]. *)
-  Definition async_step (x x' : nat -> Q) (st : nat -> nat -> bool) : Prop :=
-    forall i, (i < n)%nat ->
-    x' i == upd (fun j => if Nat.eqb j i then x i else if st i j then x j else x' j)
-                (dangling_rank x) i.
+      own old value, the dangling rank of the old vector, and reads [r j] of the other
+      nodes that return either the old value or the value written in this iteration.
+      All reads old: a Jacobi step; new for [j < i]: the Gauss-Seidel sweep; any thread
+      schedule with racy reads yields some such [r]. *)
+  Definition async_step (x x' : nat -> Q) : Prop :=
+    forall i, (i < n)%nat -> exists r : nat -> Q,
+    x' i == upd r (dangling_rank x) i /\ r i == x i /\ forall j, r j == x j \/ r j == x' j.
 
   (** sparse form of component i of x M, used by the certificate checker *)
   Definition lhs_sparse (x : nat -> Q) (dr : Q) (i : nat) : Q :=
